@@ -27,7 +27,10 @@ def experiment_level(ctx, nexp):
     specs = [dict(envs=[["lin", 6, 3], ["group", 0, 0]], lrns=[["count", 1], ["kwargs"]], vals=[["seq"]], groups=[dict(n=6, seed=5, prefix=None, fan=1, batch=2)], triples=[[0, 0, 0], [1, 0, 0], [0, 1, 0], [1, 1, 0]]),
              dict(envs=[["lin", 6, 3]], lrns=[["count", 2]], vals=[["seq"], ["seq2", 3]], groups=[], triples=[[0, 0, 0], [0, 0, 1]]),
              dict(envs=[["lin", 6, 3], ["lin", 6, 4]], lrns=[["count", 1], ["failing", "learn", 2]], vals=[["seq"]], groups=[], triples=[[0, 0, 0], [0, 1, 0], [1, 0, 0], [1, 1, 0]]),
-             dict(envs=[["lin", 5, 8], ["lin", 5, 9]], lrns=[["failing", "predict", 3], ["kwargs"]], vals=[["seq"]], groups=[], triples=[[0, 0, 0], [1, 1, 0], [1, 0, 0], [0, 1, 0]])]
+             dict(envs=[["lin", 5, 8], ["lin", 5, 9]], lrns=[["failing", "predict", 3], ["kwargs"]], vals=[["seq"]], groups=[], triples=[[0, 0, 0], [1, 1, 0], [1, 0, 0], [0, 1, 0]]),
+             # an environment object that can be iterated like a pipeline and whose iteration fails: only its own triples are lost
+             dict(envs=[["lin", 6, 3], ["lin", 6, 4]], lrns=[["finish"], ["count", 1]], vals=[["seq"]], groups=[], triples=[[0, 0, 0], [1, 0, 0], [0, 1, 0], [1, 1, 0]]),
+             dict(envs=[["failiter", 0], ["lin", 6, 4]], lrns=[["count", 1], ["kwargs"]], vals=[["seq"]], groups=[], triples=[[0, 0, 0], [1, 0, 0], [0, 1, 0], [1, 1, 0]])]
     for _ in range(nexp): specs.append(expcore.gen_spec(rng, failures=True, batched=True))
     jobs, index = [], []
     for si, spec in enumerate(specs):
